@@ -20,7 +20,8 @@ PROPS = {
         "level": "proof",
         "harness": ["purediff", "gwrun"],
         "stages": [("pure", stage_pure, {"suites": ["pattern", "lcs", "ressub"], "n_quick": 6000, "n_thorough": 150000}),
-                   ("gw", stage_gw, {"profiles": [("reset", 700, 6000), ("resetf", 300, 2500), ("accchurn", 250, 2000)]})],
+                   ("gw", stage_gw, {"profiles": [("reset", 600, 6000), ("resetf", 300, 2500), ("accchurn", 200, 2000), ("scthr1", 250, 2000), ("thr2", 150, 1500)],
+                                     "monitor_props": ("C12", "C01")})],
         "rule": "patterns/names over a token alphabet with wildcards, invalid tokens and byte mutations (names derived from the pattern "
                 "so matches are frequent); all pairs of collections up to length 3 over 2 value classes plus random edit-distance pairs "
                 "up to length 10 over <=5 classes of all four value kinds; direct-drive op sequences (events, reset start/answers incl. "
@@ -64,7 +65,7 @@ PROPS = {
         "level": "proof",
         "harness": ["purediff", "gwrun"],
         "stages": [("pure", stage_pure, {"suites": ["throttle"], "n_quick": 3000, "n_thorough": 40000}),
-                   ("gw", stage_gw, {"profiles": [("scthr1", 400, 3000), ("scthr2", 300, 2000), ("thr1", 300, 3000), ("thr2", 200, 2000)], "monitor_props": ("C19", "C06", "C12")})],
+                   ("gw", stage_gw, {"profiles": [("scthr1", 400, 3000), ("scthr2", 300, 2000), ("scdisct", 300, 3000), ("thr1", 250, 3000), ("thr2", 150, 2000)], "monitor_props": ("C19", "C06", "C12")})],
         "rule": "random Add/Done sequences on the real rescache.Throttle for limits 1..4 (Done mostly within the call contract, 8% outside "
                 "it to exercise the panic branch); observed: which starters ran after each call, checked against min(added, done+limit) and Add order; "
                 "histories of the real gateway with resetThrottle = referenceThrottle = 1 and 2: system resets over reference graphs with re-access, "
@@ -79,7 +80,7 @@ PROPS = {
         "level": "proof",
         "harness": ["gwrun", "purediff"],
         "stages": [("pure", stage_pure, {"suites": ["ressub"], "n_quick": 4000, "n_thorough": 60000}),
-                   ("gw", stage_gw, {"profiles": [("basic", 150, 1000), ("refs", 350, 3000), ("churn", 350, 3000), ("access", 200, 1500), ("scacc", 250, 2000), ("reset", 250, 1500), ("accrefs", 200, 1500), ("query", 150, 1000), ("legacy", 250, 2000), ("legacyacc", 150, 1000), ("scgraph", 250, 2000), ("resetf", 250, 2000), ("wild", 0, 1500)]})],
+                   ("gw", stage_gw, {"profiles": [("basic", 150, 1000), ("refs", 350, 3000), ("churn", 350, 3000), ("access", 200, 1500), ("scacc", 250, 2000), ("reset", 250, 1500), ("accrefs", 200, 1500), ("query", 150, 1000), ("legacy", 250, 2000), ("legacyacc", 150, 1000), ("scgraph", 250, 2000), ("resetf", 250, 2000), ("scthr1", 150, 1500), ("wild", 0, 1500)]})],
         "rule": "random histories of the real gateway under the harness scheduler (every connection task, cache task and hooked goroutine "
                 "granted one at a time): 2 clients, 3-4 resources with reference graphs (sharing, cycles, self references), "
                 "subscribe/unsubscribe/get, service change/add/remove/custom events made unique by a fresh tag, answers in any order; "
@@ -176,7 +177,7 @@ PROPS = {
         "coq": ["Props/C09.v"],
         "level": "proof",
         "harness": ["gwrun"],
-        "stages": [("gw", stage_gw, {"profiles": [("churn", 800, 5000), ("long", 400, 2000), ("basic", 200, 1000)]})],
+        "stages": [("gw", stage_gw, {"profiles": [("churn", 600, 5000), ("long", 300, 2000), ("scdisc", 400, 3000), ("basic", 150, 1000)]})],
         "rule": "histories with disconnects, evictions fired at arbitrary moments, failing gets, delete events, resource ids around the control-line limit; "
                 "ending with every client gone and every eviction timer fired; monitor at each quiescent point (introspection): use count = subscribers, "
                 "unused <-> queued for eviction, entries = event subscriptions, every get under a standing subscription, data served only after a fetch under "
@@ -204,7 +205,8 @@ PROPS = {
         "coq": ["Props/C11.v"],
         "level": "proof",
         "harness": ["gwrun"],
-        "stages": [("gw", stage_gw, {"profiles": [("churn", 700, 6000), ("accchurn", 500, 4000), ("wild", 0, 1500)]})],
+        "stages": [("gw", stage_gw, {"profiles": [("churn", 500, 6000), ("accchurn", 300, 4000), ("scdisc", 500, 4000), ("scdisct", 400, 3000), ("scthr1", 200, 1500), ("wild", 0, 1500)],
+                                     "monitor_props": ("C11", "C09", "C19")})],
         "rule": "disconnect injected at random steps with requests, loads, access checks and queued events outstanding, late answers delivered afterwards; "
                 "monitor at the next quiescent point: no subscription, no conn-event subscription left for the connection, use counts equal remaining "
                 "subscribers, and no service request on its behalf afterwards",
